@@ -40,3 +40,17 @@ claim("C06", "model_checking",
       "atlas.sum, file add/remove/rename) of small concrete directories is abstracted by independent parsers and TLC evaluates the reference outcome on it. CLI writers (hash/new/diff/import) are checked to leave a valid directory.",
       "Trusted: SHA-256 injective; the harness's parsers of atlas.sum and of the `atlas:sum ignore` rule; ignored-file contents and trailing ignored files are documented blind spots.",
       "3 C06")
+claim("C04", "model_checking",
+      "TLA+ catalogue model (PlanCatalog.tla) checked by TLC; plans of the MySQL/PostgreSQL planners for every FK digraph scenario tokenised into events and consumed by TLC (PlanCatalogTrace.tla)",
+      "TLC explores every statement sequence of PlanCatalog.tla up to 6 (7) statements over 3 tables (FKTargetsExist, Once). The harness plans, with mysql.DefaultPlan and postgres.DefaultPlan, every directed "
+      "FK graph with self loops over <= 3 tables x every created/dropped/kept-and-modified split, 4-table graphs for create-all/drop-all (all 65,536 in the thorough tier, a seeded 5% sample in quick) and random 5..8-table "
+      "graphs; each statement becomes a catalogue event and TLC must be able to consume the plan and end in the wanted catalogue with every table created/dropped at most once. Planner errors, panics and timeouts are violations.",
+      "Trusted: the SQL tokeniser of the harness; engine acceptance rules as written in PlanCatalog.tla.",
+      "3 C04")
+claim("C16", "model_checking",
+      "PlanCatalogTrace.tla qualifier guard evaluated by TLC over tokenised forward and reverse statements of scoped plans (change-kind catalogue x qualifier x dialect) and over the FK-graph scenarios",
+      "For a catalogue of change kinds (tables, enum columns, indexes, comments, checks, foreign keys, drops, modifications, renames, combinations) x {empty, custom} qualifier x {MySQL, PostgreSQL}, every planned and reverse "
+      "statement is tokenised and TLC checks that exactly the requested qualifier is used at every reference, that the schema's own name is never mentioned, that no schema-level statement is planned and that cross-schema / "
+      "schema-level change sets are refused. All <=3-table FK-graph scenarios are re-planned with both qualifier settings.",
+      "Trusted: the tokeniser's notion of a reference position; deferred plan mode only.",
+      "3 C16")
